@@ -397,4 +397,44 @@ ContainerFailures(e, o, slices, inflated) ==
                 \cup (IF o.absent = "None" THEN {} ELSE {"AbsentTag.got" \o o.absent})
            ELSE {})
 
+---------------------------------------------------------------------------
+\* Buffer-filling content (round 4).  Besides faults on fields the inputs of the property carry
+\* *content* that a parser keeps in buffers of fixed size: the operand stack of a Type 2 charstring
+\* interpreter and of a DICT reader holds 48 numbers in CFF and 513 in CFF2, a DICT real number is
+\* converted through 64 characters, a PostScript name has at most 63 bytes.  A well-formed input may
+\* fill such a buffer exactly; the contract is the same Safe(outcome), and an input that overfills it
+\* by one must be answered with an error.  The model says which operand counts do that: an operator
+\* of variable arity takes its operands in groups of m with a remainder in rems (`room` places of
+\* the stack are taken by something else - the number of the subroutine the operator sits in).
+Interpreters == {"cff", "cff2"}
+BufferLimit(ip) == IF ip = "cff2" THEN 513 ELSE 48
+RealBufferChars == 64
+PostScriptNameBytes == 63
+Form(op, m, rems, room) == [op |-> op, m |-> m, rems |-> rems, room |-> room]
+OperatorForms(ip) ==
+  {Form(5, 2, <<0>>, 0),                                    \* rlineto: pairs
+   Form(6, 1, <<0>>, 0), Form(7, 1, <<0>>, 0),              \* hlineto, vlineto: any number
+   Form(8, 6, <<0>>, 0),                                    \* rrcurveto: sixes
+   Form(24, 6, <<2>>, 0),                                   \* rcurveline: sixes and a pair
+   Form(25, 2, <<0>>, 0),                                   \* rlinecurve: pairs and a six
+   Form(26, 4, <<1>>, 0), Form(26, 4, <<0>>, 0),            \* vvcurveto: fours, optionally one more
+   Form(27, 4, <<1>>, 0), Form(27, 4, <<0>>, 0),            \* hhcurveto
+   Form(30, 4, <<1>>, 0), Form(30, 4, <<0>>, 0),            \* vhcurveto: fours, the last curve may have five
+   Form(31, 4, <<1>>, 0), Form(31, 4, <<0>>, 0),            \* hvcurveto
+   Form(1, 2, <<0>>, 0), Form(3, 2, <<0>>, 0),              \* hstem, vstem: pairs
+   Form(18, 2, <<0>>, 0), Form(23, 2, <<0>>, 0),            \* hstemhm, vstemhm
+   Form(31, 4, <<0, 1>>, 1)}                                \* hvcurveto inside a subroutine
+  \cup (IF ip = "cff2"
+        THEN {Form(16, 2, <<1>>, 0), Form(16, 3, <<1>>, 0)} \* blend: n (k + 1) + 1 operands, k = 1, 2 regions
+        ELSE {})
+Accepts(f, k) == k >= 1 /\ \E i \in 1 .. Len(f.rems) : k % f.m = f.rems[i]
+\* the largest count the form accepts that the buffer still holds
+FillCount(f, limit) ==
+  CHOOSE k \in 1 .. (limit - f.room) : Accepts(f, k) /\ \A j \in (k + 1) .. (limit - f.room) : ~Accepts(f, j)
+\* what FillCount promises, stated on the buffer: the operands (and what else is on the stack) fit, no
+\* larger accepted count would, and one operand more than the buffer holds never fits
+FillHolds(f, limit, k) ==
+  /\ Accepts(f, k) /\ k + f.room <= limit
+  /\ \A j \in (k + 1) .. (k + f.m) : Accepts(f, j) => j + f.room > limit
+Overfills(limit, k) == k > limit
 =============================================================================
